@@ -37,6 +37,7 @@ import (
 	"testing"
 	"time"
 
+	"github.com/git-lfs/git-lfs/v3/config"
 	"github.com/git-lfs/git-lfs/v3/creds"
 	"github.com/git-lfs/git-lfs/v3/git"
 	"github.com/git-lfs/git-lfs/v3/lfshttp"
@@ -480,6 +481,20 @@ var c17PPs = []c17PP{
 	{"true", map[string]string{"credential.protectprotocol": "true"}, true},
 	{"url-false", map[string]string{"credential.https://h.io:8443.protectprotocol": "false"}, false},
 	{"global-false-url-true", map[string]string{"credential.protectprotocol": "false", "credential.https://h.io:8443.protectprotocol": "true"}, true},
+	// the same key defined more than once (e.g. in ~/.gitconfig and in .git/config): Git's rule is "the last one wins"
+	{"dup-false-then-true", map[string]string{"credential.protectprotocol": "false\x00true"}, true},
+	{"dup-true-then-false", map[string]string{"credential.protectprotocol": "true\x00false"}, false},
+	{"url-dup-false-then-true", map[string]string{"credential.https://h.io:8443.protectprotocol": "false\x00true"}, true},
+	{"url-dup-true-then-false+global-true", map[string]string{"credential.protectprotocol": "true", "credential.https://h.io:8443.protectprotocol": "true\x00false"}, false},
+}
+
+// c17GitEnv builds the Git environment of a case; a value containing NUL stands for a key defined several times, in that order.
+func c17GitEnv(m map[string]string) config.Environment {
+	multi := map[string][]string{}
+	for k, v := range m {
+		multi[k] = strings.Split(v, "\x00")
+	}
+	return config.EnvironmentOf(config.MapFetcher(multi))
 }
 
 type c17Field struct {
@@ -686,8 +701,8 @@ func c17RunDirect(x *vx.X) vx.Result {
 	for k, v := range chainCfg {
 		cfgAll[k] = v
 	}
-	cx := c17Env(cfgAll)
-	hctx := creds.NewCredentialHelperContext(cx.GitEnv(), cx.OSEnv())
+	cx := c17Env(map[string]string{})
+	hctx := creds.NewCredentialHelperContext(c17GitEnv(cfgAll), cx.OSEnv())
 	u, _ := url.Parse(c17DirectURL)
 	w := hctx.GetCredentialHelper(nil, u)
 	o.call(w.CredentialHelper, op, m, pp.protect)
